@@ -266,7 +266,8 @@ func VerifC07Long(kind int, N int) {
 	}
 	for i := range inMem {
 		a, b := inMem[i], fromFile[i]
-		if a.Offset.Start != b.Offset.Start || a.Offset.End != b.Offset.End || a.Value != b.Value || a.MatchNumber != b.MatchNumber {
+		if a.Offset.Start != b.Offset.Start || a.Offset.End != b.Offset.End || a.Value != b.Value || a.MatchNumber != b.MatchNumber ||
+			a.Line.Start != b.Line.Start || a.Line.End != b.Line.End || a.Column.Start != b.Column.Start || a.Column.End != b.Column.End {
 			vFail("a match found in the file differs from the match found in memory")
 		}
 	}
